@@ -37,15 +37,23 @@ type exprCase struct {
 	Inner2   string   `json:"inner2,omitempty"` // right operand
 	BinOp    string   `json:"binop,omitempty"`
 	Modelled bool     `json:"modelled"`
+	// Param: the scalar argument of quantile_over_time (the quantile) / predict_linear (seconds ahead), as written
+	Param string `json:"param,omitempty"`
 	// Hint: a selector of the expression (metric, offset) used only to aim evaluation times at its samples
 	Hint *selSpec `json:"-"`
 }
 
 var modelledFns = []string{"rate", "increase", "delta", "irate", "idelta", "sum_over_time", "count_over_time", "avg_over_time",
-	"min_over_time", "max_over_time", "last_over_time", "changes", "resets"}
+	"min_over_time", "max_over_time", "last_over_time", "changes", "resets",
+	"stddev_over_time", "stdvar_over_time", "present_over_time", "absent_over_time", "quantile_over_time", "deriv", "predict_linear"}
 
 // range functions outside the modelled list: three-way differential does not apply, upstream-vs-server only
-var otherFns = []string{"stddev_over_time", "stdvar_over_time", "present_over_time", "deriv"}
+var otherFns = []string{"holt_winters"}
+
+// scalar arguments as written in the expression (exactly representable or not: the model gets the float's rational)
+var quantiles = []string{"0", "0.25", "0.5", "0.5", "0.9", "0.99", "1", "-0.5", "1.5", "0.333"}
+var horizons = []string{"0", "60", "600", "-30", "1.5", "3600"}
+var hwFactors = []string{"0.5", "0.1", "0.9", "0.3"}
 
 func isModelledFn(f string) bool {
 	for _, m := range modelledFns {
@@ -140,12 +148,20 @@ func genRangeMs(r *gen.Rand, subsecond bool) int64 {
 
 func genRangeFn(r *gen.Rand, top bool) exprCase {
 	fn := gen.Pick(r, modelledFns)
-	if r.Chance(1, 8) {
+	if r.Chance(1, 30) {
 		fn = gen.Pick(r, otherFns)
 	}
 	subsec := top && r.Chance(1, 8) // sub-second ranges only as the outermost call (finding signature)
 	if subsec && r.Chance(1, 2) {
 		fn = "rate"
+	}
+	if only := os.Getenv("C18_ONLY"); strings.HasPrefix(only, "fn:") { // debugging aid: restrict the range functions
+		fn = gen.Pick(r, strings.Split(only[3:], ","))
+	}
+	if !top && fn == "absent_over_time" {
+		// absent_over_time below an aggregation / binary operator is NOT covered (see NOTES.md: today's code keeps the
+		// matcher-derived labels through `by`, and returns nothing for operators above an absent metric)
+		fn = "present_over_time"
 	}
 	metric := ""
 	switch fn {
@@ -157,7 +173,18 @@ func genRangeFn(r *gen.Rand, top bool) exprCase {
 	sel := genSel(r, metric)
 	rg := genRangeMs(r, subsec)
 	e := exprCase{Form: "rangefn", Sel: sel, Fn: fn, RangeMs: rg, Modelled: isModelledFn(fn)}
-	e.Expr = fmt.Sprintf("%s(%s)", fn, sel.text(rg))
+	switch fn {
+	case "quantile_over_time":
+		e.Param = gen.Pick(r, quantiles)
+		e.Expr = fmt.Sprintf("%s(%s, %s)", fn, e.Param, sel.text(rg))
+	case "predict_linear":
+		e.Param = gen.Pick(r, horizons)
+		e.Expr = fmt.Sprintf("%s(%s, %s)", fn, sel.text(rg), e.Param)
+	case "holt_winters":
+		e.Expr = fmt.Sprintf("%s(%s, %s, %s)", fn, sel.text(rg), gen.Pick(r, hwFactors), gen.Pick(r, hwFactors))
+	default:
+		e.Expr = fmt.Sprintf("%s(%s)", fn, sel.text(rg))
+	}
 	return e
 }
 
@@ -378,6 +405,12 @@ func genWithoutCmp(r *gen.Rand) exprCase {
 func genExpr(r *gen.Rand) exprCase {
 	if os.Getenv("C18_ONLY") == "without-cmp" {
 		return genWithoutCmp(r)
+	}
+	if strings.HasPrefix(os.Getenv("C18_ONLY"), "fn:") {
+		if r.Chance(1, 4) {
+			return genAgg(r)
+		}
+		return genRangeFn(r, true)
 	}
 	switch r.Intn(13) {
 	case 0, 1, 2:
